@@ -7,7 +7,7 @@ fields in that order, what the model reads back from it, and the flags of the ol
 Encoding (no blanks; `_` = None; blanks inside names are `%20`):
   fields   F|F|…
   F        dom;sig;ncvar;dflt;AXES;CONS;GMS;VREFS;CMS;DATAAXES      (DATAAXES = i+j+…, the data axes in order)
-  AXES     size:ncdim:inData , …
+  AXES     size:ncdim:inData:unlimited , …
   CONS     kind:sig:a+a:BOUNDS:ncvar:dflt:str , …     BOUNDS = _ or bsig/nv/ncvar/ncdim
   GMS      params:datum:c+c:ncvar:name , …
   VREFS    owner:datum:term~idx+term~idx , …
@@ -53,9 +53,9 @@ def parseCons (s : String) : Option Cons :=
 
 def parseAxis (s : String) : Option AAxis :=
   match s.splitOn ":" with
-  | [sz, d, i] => do
-    let sz ← sz.toNat?; let d ← optName d; let i ← bool? i
-    some { size := sz, ncdim := d, inData := i }
+  | [sz, d, i, u] => do
+    let sz ← sz.toNat?; let d ← optName d; let i ← bool? i; let u ← bool? u
+    some { size := sz, ncdim := d, inData := i, unlimited := u }
   | _ => none
 
 def parseGM (s : String) : Option GM :=
